@@ -17,6 +17,7 @@ import numpy
 
 from mpv import arr
 
+ANCHORS = ['mpilot/libraries/eems/csv/io.py:EEMSRead.execute', 'mpilot/libraries/eems/csv/io.py:EEMSWrite.execute']   # repository functions the workload must enter (reported as anchors_reached / anchors_missed)
 LEVEL = "exploration"
 RULE = ("tables of 0-60 rows x 1-6 columns; header names needing CSV quoting (commas, quotes, blanks, non-ASCII); cells from a hostile "
         "double pool (subnormals, extremes, -0.0, 17-digit values, integers up to 2^53, values within one ulp / 1e-6 of the missing "
